@@ -285,10 +285,15 @@ fn hostile_json_values() -> Vec<Value> {
         "AS1-AS0", "AS0-AS4294967295", "inherit", "rsync://", "rsync://localhost/repo/../x/", "rsync://localhost/repo/ca", "https://",
         "https://localhost:3000/rfc8181/x", "ta", "testbed", "../../etc/passwd", "a/b", "\u{0}", "é", "\u{202e}", "!!!!", "AAAA", "=",
         "10.0.0.0/24 => 65000", "2026-13-45T99:99:99Z",
+        // handle-shaped values that are accepted as handles but make no
+        // valid URI path segment, file name or key
+        "a/", "/a", "a//b", "a\\b", "\\", "/", "//", "-", "_", ".", "..", "a b", "a.b", "A", "a/b/", "/a/b",
     ]
     .iter()
     .map(|s| json!(s))
     .collect();
+    v.push(json!("a".repeat(255)));
+    v.push(json!("a".repeat(256)));
     v.push(json!("a".repeat(300)));
     v.push(json!("A".repeat(100_000)));
     v.extend([
